@@ -19,6 +19,7 @@ import (
 	"sort"
 	"strings"
 	"sync"
+	"sync/atomic"
 	"time"
 
 	kmip "github.com/smira/go-kmip"
@@ -103,14 +104,15 @@ func (c sessionCfg) text(sid, sauth string) string {
 
 // scriptedServer wires a kmip.Server to per-session scripts and logs
 type scriptedServer struct {
-	srv      *kmip.Server
-	lis      *memListener
-	mu       sync.Mutex
-	conns    map[string]*memConn    // by session id
-	byConn   map[net.Conn]string    // conn -> session auth token
-	scripts  map[string][]behaviour // by session id
-	served   chan error
-	callSeen map[string]int
+	rejections int32
+	srv        *kmip.Server
+	lis        *memListener
+	mu         sync.Mutex
+	conns      map[string]*memConn    // by session id
+	byConn     map[net.Conn]string    // conn -> session auth token
+	scripts    map[string][]behaviour // by session id
+	served     chan error
+	callSeen   map[string]int
 }
 
 func newScriptedServer(cfg sessionCfg) *scriptedServer {
@@ -134,6 +136,9 @@ func newScriptedServer(cfg sessionCfg) *scriptedServer {
 			ss.mu.Unlock()
 			if cfg.sa == "fail" {
 				mc.event("sa", "fail")
+				if len(tok)%2 == 0 {
+					return nil, reasonError{"session auth rejected", kmip.RESULT_REASON_AUTHENTICATION_NOT_SUCCESSFUL}
+				}
 				return nil, errors.New("session auth rejected")
 			}
 			mc.event("sa", "ok")
@@ -153,6 +158,13 @@ func newScriptedServer(cfg sessionCfg) *scriptedServer {
 				return cv.Username + "@" + sess.SessionID, nil
 			}
 			mc.event("ra", creds+":fail")
+			// the kind of error must not matter: plain, carrying a KMIP result reason (kmip.Error), wrapped
+			switch atomic.AddInt32(&ss.rejections, 1) % 3 {
+			case 0:
+				return nil, reasonError{"request auth rejected", kmip.RESULT_REASON_AUTHENTICATION_NOT_SUCCESSFUL}
+			case 1:
+				return nil, fmt.Errorf("rejected: %w", reasonError{"inner", kmip.RESULT_REASON_PERMISSION_DENIED})
+			}
 			return nil, errors.New("request auth rejected")
 		}
 	}
@@ -410,6 +422,23 @@ func genRequest(r *rand.Rand, g *gen, ops []kmip.Enum, authMode int) (kmip.Reque
 	}
 	if r.Intn(4) == 0 {
 		req.Header.MaxResponseSize = g.int32v()
+	}
+	// the other header fields a client may set: the server must treat the batch the same way whatever they say
+	if r.Intn(3) == 0 {
+		req.Header.BatchErrorContinuationOption = kmip.Enum(r.Intn(4)) // 1 Continue, 2 Stop, 3 Undo
+	}
+	if r.Intn(4) == 0 {
+		req.Header.BatchOrderOption = r.Intn(2) == 0
+	}
+	if r.Intn(6) == 0 {
+		req.Header.AttestationCapableIndicator = true
+		req.Header.AttestationType = []kmip.Enum{kmip.Enum(1 + r.Intn(3))}
+	}
+	if r.Intn(6) == 0 {
+		req.Header.ServerCorrelationValue = "scv-" + string(g.bytesv())
+	}
+	if r.Intn(6) == 0 {
+		req.Header.TimeStamp = time.Unix(int64(1500000000+r.Intn(1000)), 0)
 	}
 	switch authMode {
 	case 1:
